@@ -211,6 +211,16 @@ def run(env):
     if mr.counts["mismatch_not_attributable_left_to_C02"] or mr.counts["mismatch_attributed_to_mode_byte_not_C15"]:
         env.note("%d routing mismatches were not attributable to PSK routing (left to C02); %d attributed to a mode byte" % (
             mr.counts["mismatch_not_attributable_left_to_C02"], mr.counts["mismatch_attributed_to_mode_byte_not_C15"]))
+    if not env.quick():
+        # the emptiness rule on a 32-bit target: lengths whose product / sum overflows a 32-bit usize
+        cw = cl.CaseW()
+        s32 = cw.session(0x0020, 1, 1, sid="v32")
+        for a, b in ((65536, 65536), (65536, 65535), (1 << 17, 1 << 15), (0, 65536), (65536, 0), (1, 1), (0, 0), (70000, 70000)):
+            s32.call("psk_bundle", psk="@z:00:%d" % a if a else "-", pskid="@z:01:%d" % b if b else "-")
+        sessions, note = fw.run_miri(env, "bundle-i686", cw.text(), target="i686-unknown-linux-gnu")
+        env.extra_cov["bundle_validation_under_miri_i686"] = note
+        if sessions is not None:
+            env.pmap(monitor_validation, sessions, workload="validation", procs=1)
     if mr.counts["routing_cells_matching"] < 48 and not env.violations:
         raise fw.Inconclusive("routing could be judged for only %d (suite, mode) cells" % mr.counts["routing_cells_matching"])
 
